@@ -16,7 +16,7 @@ func init() {
 		run:       runC15,
 		decided: "R1 a site is marked managed in exactly the cases of the documented conjunction (host and listen host neither loopback nor internal, scheme not http, and in QualifiesForManagedTLS: TLS settings and manager present, not manual unless on-demand, not self-signed, port not the literal 80, ACME e-mail not 'off', subject qualifies for a public certificate unless on-demand) — decided as the function's full decision table, in whatever form the code spells it — and the loopback/internal tables contain the reserved names; " +
 			"R2 MakeServers disables TLS exactly for sites on the HTTP port or with scheme http; " +
-			"R3 a redirect site is synthesised only for TLS-enabled sites that are not themselves plain-HTTP sites, do not opt out and have no other site on the HTTP port; its handler answers 301 to \"https://\" + request host (+ port unless default) + the request URI as received. Since round 4: R2 as a table of MakeServers (TLS enabled x port x scheme). R4 the opt-out flags Manual and SelfSigned are only ever raised.",
+			"R3 a redirect site is synthesised only for TLS-enabled sites that are not themselves plain-HTTP sites, do not opt out and have no other site on the HTTP port; its handler answers 301 to \"https://\" + request host (+ port unless default) + the request URI as received. Since round 4: R2 as a table of MakeServers (TLS enabled x port x scheme). R4 the opt-out flags Manual and SelfSigned are only ever raised. Since round 7: R1 a public DNS name that begins with 127. is not loopback; R3 opaque request targets and own-certificate sites without a port.",
 		notDecided: "which names certmagic can really certify; DNS; behaviour of http.Redirect itself.",
 	})
 }
